@@ -24,7 +24,10 @@ const Rule = "case = (grammar, one transformation): description lines, the trans
 	"op's own normal form holds, the result passes Verify() and the independent validity check, IsCNF() " +
 	"agrees with the independent CNF check, the receiver equals a clone taken before the call AND renders to " +
 	"the same text as before (a deep rendering: Clone shares the production values); grammars as in C08 (incl. " +
-	"terminals named like non-terminals, pipelines T1 then T2, bodies of 99-104 symbols); non-trivial = the input did not already satisfy the op's post-condition (or, for `parsers`, " +
+	"terminals named like non-terminals, pipelines T1 then T2, bodies of 99-104 symbols) plus helper cases (Verify() and " +
+	"IsCNF() as error lists, AnyMatch / AllMatch / SelectMatch, Equal, the comparators and hashes, on valid and on malformed " +
+	"grammars) and `parsers` on malformed grammars (the caller's grammar stays unchanged whether the constructor returns or " +
+	"panics; the Model predicts which for predictive.BuildParsingTable); non-trivial = the input did not already satisfy the op's post-condition (or, for `parsers`, " +
 	"a table was built); distinct = distinct (grammar, op)"
 
 // PostLine renders every post-condition for g (the result) relative to orig (the input), byte-identical to
@@ -252,6 +255,7 @@ func Exec(c hx.Case) hx.Result {
 			}
 		case len(f) == 1 && f[0] == "parsers":
 			line := "ok unchanged"
+			predictiveOutcome := "returned"
 			for _, ct := range ctors {
 				cfg := c08.ToCFG(g)
 				before := cfg.Clone()
@@ -260,10 +264,19 @@ func Exec(c hx.Case) hx.Result {
 				done := hx.WithTimeout(5e9, func() { kind = hx.Try(func() { ct.f(cfg) }) })
 				if !done {
 					tags["parsers:timeout:"+ct.name] = true
+					if ct.name == "predictive.BuildParsingTable" {
+						predictiveOutcome = "hang"
+					}
 					continue // the constructor is still running on cfg; nothing can be compared
 				}
 				if kind != "" {
 					tags["parsers:panic:"+ct.name] = true // owned by C11 (D18); immutability is still checked
+					if ct.name == "predictive.BuildParsingTable" {
+						predictiveOutcome = "panic"
+						if inScope {
+							bad(i, "", "predictive.BuildParsingTable panicked (%s) on a grammar that passes Verify()", kind)
+						}
+					}
 				} else {
 					nontrivial = true
 				}
@@ -274,7 +287,24 @@ func Exec(c hx.Case) hx.Result {
 				}
 			}
 			tags["op=parsers"] = true
+			if line == "ok unchanged" {
+				line += " predictive=" + predictiveOutcome
+			}
 			res.Outs = append(res.Outs, line)
+		case c08.IsHelperOp(f[0]):
+			out, what, ts := c08.HelperOp(g, f)
+			if out == "" {
+				res.Outs = append(res.Outs, "bad-op")
+				continue
+			}
+			res.Outs = append(res.Outs, out)
+			tags["op=helpers"] = true
+			for _, t := range ts {
+				tags[t] = true
+			}
+			if what != "" {
+				bad(i, "", "%s: %s", op, what)
+			}
 		default:
 			res.Outs = append(res.Outs, "bad-op")
 		}
@@ -359,6 +389,39 @@ func Main(run *hx.Run) {
 		for n := 99; n <= 104; n++ {
 			lim.Do(run, "cnfbin", caseFor(c08.LongBody(n, false), "long-body", "cnfbin"), Exec)
 			lim.Do(run, "cnf", caseFor(c08.LongBody(n, true), "long-body", "cnf"), Exec)
+		}
+	}
+	{
+		// Verify() / IsCNF() / the *Match queries / Equal / the comparators and hashes on valid grammars (every third with
+		// a terminal named like a non-terminal) and on grammars broken in each of the ways Verify() reports
+		r := run.R.Fork("helpers")
+		for k := 0; k < run.Scale(40); k++ {
+			g := c08.GenGrammar(r, c08.Mixes[k%len(c08.Mixes)])
+			if k%3 == 1 {
+				g = c08.KeywordNames(r, g)
+			}
+			if k%4 == 2 {
+				g = c08.WithEndmarker(g)
+			}
+			if k%2 == 1 {
+				g = c08.MalformX(r, g, k/2)
+			}
+			ops := append(g.Lines(), c08.HelperQueries(r, g)...)
+			if ok, _ := c08.Valid(g); ok {
+				for _, op := range c08.OpsFor(g) {
+					ops = append(ops, "eq "+op)
+				}
+			}
+			lim.Do(run, "helpers", hx.Case{Header: "comp=helpers mix=helpers", Ops: ops}, Exec)
+			if smallForParsers(g) || k%2 == 1 {
+				lim.Do(run, "parsers", hx.Case{Header: "comp=parsers mix=helpers", Ops: append(g.Lines(), "verify", "parsers")}, Exec)
+			}
+		}
+		// the shape on which ComputeFIRST returns and ComputeFOLLOW asks the FIRST closure for an undeclared symbol
+		for k := 0; k < run.Scale(6); k++ {
+			g := c08.GenGrammar(r, c08.Mixes[k%len(c08.Mixes)])
+			g.Prods = append(g.Prods, gx.P{Head: hx.Pick(r, g.NonTerms), Body: []string{hx.Pick(r, g.Terms), hx.Pick(r, g.NonTerms), []string{"z", "^Z"}[k%2]}})
+			lim.Do(run, "parsers", hx.Case{Header: "comp=parsers mix=follow-closure-panic", Ops: append(g.Lines(), "verify", "parsers")}, Exec)
 		}
 	}
 	{
